@@ -262,6 +262,7 @@ class Interp:
         self.lib = lib                      # library table (see lib.py)
         self.summaries = summaries or {}    # 'module.qualname' -> callable(interp, args, kwargs) (callee contracts)
         self.loop_hints = loop_hints or {}
+        self.loop_opts = {}                 # choices between equivalent closed forms in the loop rule (Unit.loop_opts)
         self.depth = 0
         self.max_forks = 4096
         self.used_summaries = set()
